@@ -48,7 +48,7 @@ class HarnessError(Exception):
 # callback (a `while True` that never awaits) defeats them; only wall time can tell.  A daemon thread watches a heartbeat
 # that every loop iteration bumps; if a running loop shows no heartbeat for SPIN_WALL_S it raises SimSpin in the main
 # thread.  It decides nothing about runs that make progress: such runs never see it.
-SPIN_WALL_S = float(os.environ.get("VERIF_SPIN_S") or 30.0)
+SPIN_WALL_S = float(os.environ.get("VERIF_SPIN_S") or 20.0)
 _wd: dict[str, Any] = {"pid": None, "beat": 0, "armed": 0}
 
 
